@@ -3,7 +3,7 @@ foreign tpc_abort / undo / pack driven directly on FileStorage(blob_dir) and
 BlobStorage(blob_dir, MappingStorage()).  Generator + runner + direct oracle (a ledger)."""
 import os
 
-from c13_lib import Env, p64, u64, errname, copy_to_fresh
+from c13_lib import Env, p64, u64, errname, copy_to_fresh, FinishBoom
 
 Z64 = b'\0' * 8
 
@@ -63,6 +63,8 @@ def gen_case(rng, flavor=None, size=None):
                 ops += [['vote']]
                 if rng.random() < 0.3:
                     ops += [['fabort']]
+                if flavor == 'wrap' and rng.random() < 0.5:
+                    ops += [['failfinish']]             # the wrapped storage's tpc_finish raises
                 ops += [['abort']]                      # abort after vote
             else:
                 ops += [['vote'], ['fabort'], ['finish']]
@@ -339,6 +341,21 @@ def run_case(case, root, ck=None):
                       check('finish')
                       if env.intruder_aborted:
                           check('abort')         # a transaction begun during the finish and aborted: no file
+                  elif kind == 'failfinish':
+                      if txn is None or failed or phase != 'voted' or flavor != 'wrap':
+                          continue
+                      env.fail_next_finish()
+                      try:
+                          S.tpc_finish(txn)
+                          bad('C13:harness', 'injected finish failure did not fire')
+                      except FinishBoom:
+                          pass
+                      finally:
+                          env.clear_finish_failure()
+                      failed = True                    # not committed: the caller aborts
+                      if pending and any(isinstance(b, bytes) for b in pending.values()):
+                          nontrivial = True
+                      check('finish-failed')
                   elif kind == 'abort':
                       if txn is None:
                           continue
